@@ -31,6 +31,9 @@ def run(ctx, rep):
     PR.dispatch(rep, lib)
     PR.json_keywords(rep, lib)
     NR.print_direct(rep, lib, rid="C02-NUMFMT")
+    # the value being output: integers up to 2^64-1 are held as integers from the parse to the printer
+    NR.parse_direct(rep, lib)
+    NR.int_ctor(rep, lib)
     NR.finite(rep, ctx)
     PR.json_structure(rep, lib)
     PR.json_row(rep, lib)
